@@ -13,7 +13,7 @@ import itertools
 
 from mc.common import Result, h64
 from mc import fp, zoo
-from mc.fp import attr_fps, obs, obs_diff, odict
+from mc.fp import attr_fps_fast, attr_fps, obs, obs_diff, odict
 
 from pypika_tortoise import terms as T
 from pypika_tortoise import functions as FN
@@ -78,7 +78,7 @@ def A(x):
     the very call it is passed to is noticed"""
     _args_out.append(x)
     d = odict(x)
-    _args_pre[id(x)] = (x, attr_fps(x) if d is not None else None, dict(d) if d is not None else None)
+    _args_pre[id(x)] = (x, attr_fps_fast(x) if d is not None else None, dict(d) if d is not None else None)
     return x
 
 
@@ -298,7 +298,9 @@ FAM = families()
 SHAPES2 = [[0, 1], [0, 0]]
 SHAPES3 = [[0, 1, 2], [0, 1, 1], [0, 0, 1], [0, 0, 2], [0, 0, 0]]
 
-QUICK_LIGHT = {"mssql": ("sel_full", "ins_conf", "upd_join", "ms_top", "ms_page", "empty"),
+QUICK_LIGHT = {"postgresql": ("sel_full", "ins_conf", "upd_join", "empty", "pg_ret", "pg_upd_ret", "pg_don"),
+               "mysql": ("sel_full", "ins_conf", "upd_join", "empty", "my_mod", "my_rollup", "my_upd_lim"),
+               "mssql": ("sel_full", "ins_conf", "upd_join", "ms_top", "ms_page", "empty"),
                "oracle": ("sel_full", "ins_conf", "upd_join", "empty"),
                "sqlite": ("sel_full", "ins_conf", "upd_join", "empty")}
 
@@ -317,8 +319,8 @@ def chunks(tier, seed):
                 d = fam[3:]
                 if d in QUICK_LIGHT and sname not in QUICK_LIGHT[d]:
                     continue
-                if sname in ("sel_lits", "upd_lits") and d != "generic":
-                    continue  # constant-wrapping seeds: all dialects in thorough and in the C02 / C15 corpora
+                if sname in ("sel_lits", "upd_lits"):
+                    continue  # constant-wrapping seeds: thorough tier, and the C02 / C15 corpora
             keys = list(ops)
             if not keys:
                 continue
@@ -405,7 +407,7 @@ class _Live:
 
     def __init__(self, obj, born, kind, idx):
         self.obj, self.born, self.kind, self.idx = obj, born, kind, idx
-        self.fps = attr_fps(obj) if odict(obj) is not None else {"": fp.deepfp_str(obj)}
+        self.fps = attr_fps_fast(obj) if odict(obj) is not None else {"": fp.deepfp_str(obj)}
 
 
 def _run_history(case, upto=None, only_chain_of=None):
@@ -544,7 +546,7 @@ def run_case(case):
             pre = _args_pre.get(id(a))
             if pre is None or pre[1] is None:
                 continue
-            now = attr_fps(a)
+            now = attr_fps_fast(a)
             if now == pre[1]:
                 continue
             ch = [k for k in sorted(set(now) | set(pre[1])) if now.get(k) != pre[1].get(k)]
@@ -573,7 +575,7 @@ def run_case(case):
                         op=key, seed=case["seed"], fam=case["fam"])
         # every previously live object must be unchanged
         for lv in lives:
-            now = attr_fps(lv.obj) if odict(lv.obj) is not None else {"": fp.deepfp_str(lv.obj)}
+            now = attr_fps_fast(lv.obj) if odict(lv.obj) is not None else {"": fp.deepfp_str(lv.obj)}
             if now == lv.fps:
                 continue
             anychange = True
@@ -610,7 +612,7 @@ def run_case(case):
             # obs() renders; a render that writes to the object is C02's business and must not be blamed on
             # the next builder call, so all baselines are re-taken after any render
             for lv in lives:
-                lv.fps = attr_fps(lv.obj) if odict(lv.obj) is not None else {"": fp.deepfp_str(lv.obj)}
+                lv.fps = attr_fps_fast(lv.obj) if odict(lv.obj) is not None else {"": fp.deepfp_str(lv.obj)}
         for j, a in enumerate(args):
             if all(a is not lv.obj for lv in lives):
                 lives.append(_Live(a, i, "arg", j))
@@ -623,6 +625,7 @@ def run_case(case):
     if not flagged and nodes[last] is not None and any(shape[i] != i for i in range(len(keys))):
         solo, _, _ = _run_history(case, only_chain_of=last)
         if solo[last] is not None:
+            # (two different objects: the canonical fingerprint, not the pickle bytes)
             a = attr_fps(nodes[last]) if odict(nodes[last]) is not None else {"": fp.deepfp_str(nodes[last])}
             b = attr_fps(solo[last]) if odict(solo[last]) is not None else {"": fp.deepfp_str(solo[last])}
             if a != b:
